@@ -26,14 +26,17 @@ Definition next_table (e : Z) : walk :=
 
 (* create_next_table: slot address of the parent entry -> the table frame *)
 Inductive created := CTable (f : Z) | CHuge | CAllocFailed.
-Definition create_next_table (s : pstate) (slot insert_flags : Z) : res (pstate * created) :=
+(* create_flags: the flags of a newly created parent entry (MappedPageTable: the insert flags;
+   RecursivePageTable: PRESENT | WRITABLE | insert flags); insert_flags: what an existing parent
+   entry is widened with *)
+Definition create_next_table_g (s : pstate) (slot create_flags insert_flags : Z) : res (pstate * created) :=
   let e := rd s slot in
   if e =? 0 then
     match allocate s with
     | (Some f, s1) =>
         (* entry.set_frame(frame, insert_flags) asserts 4KiB alignment of the frame *)
         if negb (f mod 4096 =? 0) then Panic else
-        let s2 := wr s1 slot (Z.lor f insert_flags) in
+        let s2 := wr s1 slot (Z.lor f create_flags) in
         match next_table (rd s2 slot) with
         | WHuge => Ok (s2, CHuge)
         | WNotMapped => Panic                     (* "entry should be mapped at this point" *)
@@ -50,6 +53,9 @@ Definition create_next_table (s : pstate) (slot insert_flags : Z) : res (pstate 
     | WNotMapped => Panic
     | WTable t => Ok (s1, CTable t)
     end.
+
+Definition create_next_table (s : pstate) (slot insert_flags : Z) : res (pstate * created) :=
+  create_next_table_g s slot insert_flags insert_flags.
 
 Definition slot4 (s : pstate) (page : Z) : Z := root s + 8 * p4_index page.
 Definition slot3 (t page : Z) : Z := t + 8 * p3_index page.
